@@ -195,7 +195,8 @@ def r181(chk, m):
     else:
         chk.verdict(R, 'IndexEntry.__lt__ compares collation keys, then length', not bad, msg, chk.where(lt), '%d orderings' % len(cases))
     mod = m.module(MOD)
-    col = [text(e) for e in mod.assigns.get('collator', [])]
+    r_ = m.resolve_in_module(mod, 'collator')            # (defined here or imported from a helper module)
+    col = [text(e) for e in (r_[2] if isinstance(r_, tuple) and r_[0] == 'assign' else [])]
     chk.verdict(R, 'collation function', any('sort_key' in c for c in col) and any('lower()' in c for c in col),
                 'collator must be a collation sort key with a lower-casing fallback: %s' % col, chk.where(mod))
 
@@ -250,13 +251,21 @@ def r182_merge(chk, m):
             fmt.attrs['source'] = '\\\\see{target%d}' % typ
         return A.Obj('entry:%s' % '!'.join(path), {'key': keys, 'sortkey': list(path), 'type': typ, 'node': node, 'format': fmt})
 
+    def referrer(p):
+        # the occurrence a page reference stands for: the node of the scenario that the reference object holds (under whatever name)
+        if isinstance(p, A.Obj):
+            held = [v.label for v in p.attrs.values() if isinstance(v, A.Obj) and v.label.startswith('occ')]
+            if len(held) == 1:
+                return held[0]
+        return 'TOP'
+
     def shape(node):
         out = []
         for c in D.children(node) or []:
             pages = c.attrs.get('pages')
             keyl = c.attrs.get('sortkey')
             out.append((keyl if isinstance(keyl, str) else 'TOP', len(pages) if isinstance(pages, list) else 'TOP',
-                        tuple(p.attrs.get('_cr_node').label if isinstance(p, A.Obj) and isinstance(p.attrs.get('_cr_node'), A.Obj) else 'TOP' for p in pages) if isinstance(pages, list) else (),
+                        tuple(referrer(p) for p in pages) if isinstance(pages, list) else (),
                         shape(c)))
         return tuple(out)
     scen = [('shared prefixes and a repeated path', [['a'], ['a', 'b'], ['a', 'b'], ['a', 'c'], ['d']],
@@ -314,7 +323,7 @@ def r182_groups(chk, m):
         me = d.elem('printindex', items)
         me.cls = m.cls(MOD, 'printindex')
         h = index_hooks(m, me.cls)
-        h.should_inline = lambda fname, node, info: info is None or getattr(node, 'name', '') in ('__iter__', 'hasChildNodes', 'childNodes', 'splitColumns') or A.private_only(fname, node, info)
+        h.should_inline = lambda fname, node, info: info is None or getattr(node, 'name', '') in ('__iter__', 'hasChildNodes', 'childNodes', 'splitColumns') or A.helpers_anywhere(fname, node, info)
         it = A.Interp(model=m, scope=fn, hooks=h, max_iter=12, exc_edges=False, inline=8, heap=True, precise_exc=True, max_states=30000)
         it.run_init = True
         try:
@@ -357,8 +366,8 @@ def r182_columns(chk, m):
         me = d.elem('theindex')
         me.cls = IU
         h = index_hooks(m, IU)
-        h.should_inline = A.private_only
-        it = A.Interp(model=m, scope=fn, hooks=h, max_iter=14, exc_edges=False, inline=3, heap=True, precise_exc=True, max_states=30000)
+        h.should_inline = A.helpers_anywhere
+        it = A.Interp(model=m, scope=fn, hooks=h, max_iter=14, exc_edges=False, inline=4, heap=True, precise_exc=True, max_states=30000)
         try:
             outs = it.run_function(fn, env={'self': me, 'items': items, 'cols': cols})
         except AnalysisError as e:
